@@ -577,6 +577,17 @@ def execute(program, ctx, mode):
                 return
             spy_armed[0] = False            # (no lookups from inside the lookups' own notifications)
             try:
+                ctx.fault('cb-reenter-lookup-in-registry-notification')
+                for key in W['keypool'][:3]:
+                    try:
+                        specs = key_specs(key)
+                    except Exception:       # noqa: a key whose component is being re-declared right now
+                        continue
+                    pr = PP(key['p'] % nP) if key['p'] % (nP + 1) < nP else Interface
+                    self.lookup(specs, pr, NAMES[key['n'] % 3])
+                    self.lookupAll(specs, pr)
+                    self.subscriptions(specs, pr)
+                # (after the lookups: what they cached must not outlive the change made here)
                 sm, spy_mutation[0] = spy_mutation[0], None
                 r_ = self._zisim_r
                 if sm is not None and r_ is not None and regs[r_] is self and rb.get(r_) and originally_changed is not self:
@@ -593,16 +604,6 @@ def execute(program, ctx, mode):
                     mutate(('reg', b_, real_req(rq_), PP(pp_), nm_, v_))
                     live[(b_, rq_, pp_, nm_)] = v_
                     spy_written.add((b_, rq_, pp_, nm_))
-                ctx.fault('cb-reenter-lookup-in-registry-notification')
-                for key in W['keypool'][:3]:
-                    try:
-                        specs = key_specs(key)
-                    except Exception:       # noqa: a key whose component is being re-declared right now
-                        continue
-                    pr = PP(key['p'] % nP) if key['p'] % (nP + 1) < nP else Interface
-                    self.lookup(specs, pr, NAMES[key['n'] % 3])
-                    self.lookupAll(specs, pr)
-                    self.subscriptions(specs, pr)
             finally:
                 spy_armed[0] = True
 
